@@ -206,3 +206,77 @@ pub mod pipeline {
 		}
 	}
 }
+
+/// Compaction access (C01 / C06 / C10): the real `CompactionIterator` (k-way merge, per-key
+/// retention rule) over in-memory tables built by the real `TableWriter`.
+pub mod compaction {
+	use std::sync::Arc;
+
+	use crate::clock::LogicalClock;
+	use crate::iter::{BoxedLSMIterator, CompactionIterator};
+	use crate::sstable::table::{Table, TableWriter};
+	use crate::{InternalKey, InternalKeyKind, Options};
+
+	/// one version: user key, seq, kind byte (InternalKeyKind), timestamp, value
+	pub type Ver = (Vec<u8>, u64, u8, u64, Vec<u8>);
+
+	#[derive(Debug)]
+	struct FixedClock(u64);
+	impl LogicalClock for FixedClock {
+		fn now(&self) -> u64 {
+			self.0
+		}
+	}
+
+	/// Runs a compaction over `sources` (each sorted by user key asc, seq desc) and returns the
+	/// surviving versions in output order.
+	pub fn compact(
+		sources: &[Vec<Ver>],
+		bottom: bool,
+		versioning: bool,
+		retention_ns: u64,
+		now: u64,
+		snapshots: Vec<u64>,
+	) -> std::result::Result<Vec<(Vec<u8>, u64, u8, u64)>, String> {
+		let opts = Arc::new(Options::new());
+		let mut iters: Vec<BoxedLSMIterator<'static>> = Vec::new();
+		for (i, src) in sources.iter().enumerate() {
+			if src.is_empty() {
+				continue;
+			}
+			let mut buf = Vec::with_capacity(512);
+			{
+				let mut w = TableWriter::new(&mut buf, i as u64 + 1, Arc::clone(&opts), 0);
+				for (k, seq, kind, ts, v) in src {
+					let ik = InternalKey::new(k.clone(), *seq, InternalKeyKind::from(*kind), *ts);
+					w.add(ik, v).map_err(|e| e.to_string())?;
+				}
+				w.finish().map_err(|e| e.to_string())?;
+			}
+			let size = buf.len() as u64;
+			let file: Arc<dyn crate::vfs::File> = Arc::new(buf);
+			let table = Table::new(i as u64 + 1, Arc::clone(&opts), file, size).map_err(|e| e.to_string())?;
+			// leaked on purpose: the iterator borrows the table for 'static (harness process is short-lived)
+			let table: &'static Table = Box::leak(Box::new(table));
+			iters.push(Box::new(table.iter(None).map_err(|e| e.to_string())?));
+		}
+		let cmp = Arc::new(crate::InternalKeyComparator::new(Arc::new(
+			crate::BytewiseComparator::default(),
+		)));
+		let mut it = CompactionIterator::new(
+			iters,
+			cmp,
+			bottom,
+			versioning,
+			retention_ns,
+			Arc::new(FixedClock(now)),
+			snapshots,
+		);
+		let mut out = Vec::new();
+		for item in it.by_ref() {
+			let (k, _v) = item.map_err(|e| e.to_string())?;
+			out.push((k.user_key.to_vec(), k.seq_num(), k.kind() as u8, k.timestamp));
+		}
+		Ok(out)
+	}
+}
